@@ -281,8 +281,11 @@ def render_real(unit: Unit, repo: Repo, log: list) -> str:
     fn = _fn_of(unit, repo)
     params, lets = _params_e1(fn, log, unit.name)
     body = fn.body
-    for rule, count in unit.shapes:
+    for entry in unit.shapes:
+        rule, count = entry[0], entry[1]
         tpl, rep = SHAPES[rule]
+        if len(entry) > 2:
+            rep = entry[2]   # rule E8: the helper call is wrapped so that the closure and result can be named in a proof block
         body, n = apply_template(body, tpl, rep)
         if n != count:
             raise AnchorLost(f"{unit.name}: shape {rule} `{tpl}` matched {n} times, expected {count}")
